@@ -197,6 +197,23 @@ class Rat:
         return mk("rat", self.num.key(), self.den.key(), _RatBox(self))
 
 
+def rat_subst(r: "Rat", mapping: dict) -> "Rat":
+    """Substitute atoms (canonical terms) by rational functions."""
+
+    def poly(p: Poly) -> Rat:
+        out = Rat.const(0)
+        for mono, c in p.terms.items():
+            term = Rat.const(c)
+            for a, e in mono:
+                base = mapping.get(a)
+                base = base if base is not None else Rat.atom(a)
+                term = term * base.pow(e)
+            out = out + term
+        return out
+
+    return poly(r.num) / poly(r.den)
+
+
 class _RatBox:
     """Carrier so a `rat` term can give its Rat back; compares by normal-form key."""
 
